@@ -37,7 +37,8 @@ def classOf (l : Line) : String :=
   | "bytes" => "bytes:" ++ esc (str l "via") ++ ":" ++ esc (str l "cls") ++ ":" ++ str l "obs"
   | "rph" => "rph:" ++ esc (str l "handler") ++ ":" ++ esc (str l "rp") ++ ":" ++ esc (str l "req") ++ ":" ++ esc (str l "token") ++ ":" ++ esc (str l "userinfo") ++
       (if has l "jwks" then ":" ++ esc (str l "jwks") else "") ++ (if has l "device" then ":" ++ esc (str l "device") else "") ++ ":" ++ str l "obs"
-  | "client" => "client:" ++ esc (str l "helper") ++ ":" ++ statusClass (nat l "status") ++ ":" ++ str l "ptype" ++ ":" ++ str l "obs"
+  | "client" => "client:" ++ esc (str l "helper") ++ ":" ++ statusClass (nat l "status") ++ ":" ++ str l "ptype" ++
+      (if has l "bcls" then ":" ++ esc (str l "bcls") ++ (if str l "fault" == "none" then "" else "+" ++ esc (str l "fault")) else "") ++ ":" ++ str l "obs"
   | k => "other:" ++ esc k
 
 def obsOf (l : Line) : String :=
